@@ -11,7 +11,7 @@
    decidable condition on the abstract state): C23_redis_refines_spec_partial,
    C23_equiv, C23_redis_failed_create_noop_partial. *)
 From Verif Require Import Store.KVPrims Store.Ops Store.Spec Store.EtcdModel Store.RedisModel Store.Case
-  Store.EtcdProofs Store.RedisProofs Store.C23Proofs Store.KeyStrings Store.RedisGlob Store.ScanOracle.
+  Store.EtcdProofs Store.RedisProofs Store.C23Proofs Store.KeyStrings Store.RedisGlob Store.ScanOracle Store.Concurrent Store.ConcurrentProofs.
 
 Theorem C23_etcd_refines_spec : etcd_refines_spec_stmt.
 Proof. exact etcd_refines_spec_holds. Qed.
@@ -72,3 +72,36 @@ Print Assumptions C23_redis_patterns_exact.
 Theorem C23_redis_scan_order_oracle : scan_oracle_stmt.
 Proof. exact scan_oracle_holds. Qed.
 Print Assumptions C23_redis_scan_order_oracle.
+
+(* ---- two concurrent writers.  "The same observable metadata afterwards" is
+   read as linearizability: whatever the interleaving of the atomic steps
+   (transactions / MULTI blocks / single commands) of two Store calls, both
+   calls return what they return in one of the two sequential orders and the
+   store ends in the state of that order.
+
+   etcd: every writing method except AddWorkload-with-processing is a single
+   transaction (C23_conc_etcd_atomic_pair); two AddWorkload calls on one
+   processing counter -- Get, then the compare-value transaction in a retry
+   loop -- are linearizable under every schedule and return after at most three
+   own steps each (C23_conc_etcd_add_add_linearizable / _terminates).
+   redis: UpdateWorkload (EXISTS, then MULTI{SET}) is not: a RemoveWorkload in
+   the window is undone (C23_conc_redis_update_window_refuted). ---- *)
+Theorem C23_conc_etcd_atomic_pair : atomic_pair_linearizable_stmt.
+Proof. exact atomic_pair_linearizable_holds. Qed.
+Print Assumptions C23_conc_etcd_atomic_pair.
+
+Theorem C23_conc_etcd_add_add_linearizable : add_add_linearizable_stmt.
+Proof. exact add_add_linearizable_holds. Qed.
+Print Assumptions C23_conc_etcd_add_add_linearizable.
+
+Theorem C23_conc_etcd_add_add_terminates : add_add_terminates_stmt.
+Proof. exact add_add_terminates_holds. Qed.
+Print Assumptions C23_conc_etcd_add_add_terminates.
+
+Theorem C23_conc_etcd_decr_delete_window_closed : etcd_decr_delete_window_closed_stmt.
+Proof. exact etcd_decr_delete_window_closed_holds. Qed.
+Print Assumptions C23_conc_etcd_decr_delete_window_closed.
+
+Theorem C23_conc_redis_update_window_refuted : redis_update_window_stmt.
+Proof. exact redis_update_window_holds. Qed.
+Print Assumptions C23_conc_redis_update_window_refuted.
